@@ -113,6 +113,8 @@ def bytesio_new(eng, args, kwargs):
     if isinstance(data.t, TOpt):
         eng.need(z3.Not(data.t.is_none(data.z)), 'TypeError')
         data = V(data.t.inner, data.t.val(data.z))
+    # assumption (listed in the evidence): no in-memory buffer holds 2^62 octets or more
+    eng.assume(z3.Length(data.z) < 2 ** 62)
     eng.write_heap(ref, ('BytesIO', 'content'), TBytes, data)
     eng.write_heap(ref, ('BytesIO', 'pos'), TInt, mk_int(0))
     return ref
